@@ -15,6 +15,7 @@ import (
 	"io"
 	"net/http"
 	"runtime"
+	"strconv"
 	"strings"
 	"testing"
 	"time"
@@ -668,6 +669,10 @@ func evalClient(d caseDesc) ev.Result {
 				return nil
 			}
 			hit = true
+			if d.In.Kind == "http" {
+				delivered = len(ex.RespBody) + 1
+				return httpFault(d.In.Hex, ex)
+			}
 			if d.Pos >= 65 {
 				sc, ok := svc.Mem.SessionCrypter(ex.ReqToken)
 				if !ok {
@@ -833,6 +838,62 @@ func honestResponses(cfg deploy.Config) (map[int][]byte, error) {
 		return nil, err
 	}
 	return out, nil
+}
+
+var httpFaults = []string{"type-missing", "type-text", "type-negative", "type-256", "type-huge", "type-zero", "type-other", "type-error-with-honest-body",
+	"status-204", "status-301", "status-404", "status-500", "token-missing", "token-garbage", "token-huge", "ctype-text", "clen-zero", "clen-larger", "clen-huge", "clen-negative", "body-empty", "body-70k"}
+
+// httpFault alters the HTTP envelope of an honest response.
+func httpFault(kind string, ex *deploy.Exchange) *deploy.Action {
+	a := &deploy.Action{Headers: map[string]string{}}
+	i64 := func(v int64) *int64 { return &v }
+	switch kind {
+	case "type-missing":
+		a.Headers["Message-Type"] = ""
+	case "type-text":
+		a.Headers["Message-Type"] = "abc"
+	case "type-negative":
+		a.Headers["Message-Type"] = "-1"
+	case "type-256":
+		a.Headers["Message-Type"] = "256"
+	case "type-huge":
+		a.Headers["Message-Type"] = "99999999999999999999"
+	case "type-zero":
+		a.Headers["Message-Type"] = "0"
+	case "type-other":
+		a.Headers["Message-Type"] = strconv.Itoa(int(ex.RespType) + 2)
+	case "type-error-with-honest-body":
+		a.Headers["Message-Type"] = "255"
+	case "status-204":
+		a.Status = 204
+	case "status-301":
+		a.Status = 301
+	case "status-404":
+		a.Status = 404
+	case "status-500":
+		a.Status = 500
+	case "token-missing":
+		a.Headers["Authorization"] = ""
+	case "token-garbage":
+		a.Headers["Authorization"] = "Bearer !!!"
+	case "token-huge":
+		a.Headers["Authorization"] = "Bearer " + strings.Repeat("A", 70000)
+	case "ctype-text":
+		a.Headers["Content-Type"] = "text/html"
+	case "clen-zero":
+		a.CLen = i64(0)
+	case "clen-larger":
+		a.CLen = i64(int64(len(ex.RespBody)) + 10)
+	case "clen-huge":
+		a.CLen = i64(1 << 40)
+	case "clen-negative":
+		a.CLen = i64(-1)
+	case "body-empty":
+		a.Body = []byte{}
+	case "body-70k":
+		a.Body = bytes.Repeat([]byte{0x81}, 70000)
+	}
+	return a
 }
 
 // ---------------------------------------------------------------------------
@@ -1154,6 +1215,24 @@ func TestC10(t *testing.T) {
 								return
 							}
 						}
+					}
+				}
+			}
+		}
+	}, evalClient)
+
+	r.SetRule("client-http", "exhaustive: every response position × 2 configurations × 22 alterations of the HTTP envelope of the honest response (Message-Type header missing / text / negative / 256 / huge / 0 / another type / 255 with the honest body; status 204 / 301 / 404 / 500; Authorization missing / garbage / 70 kB; Content-Type; declared Content-Length 0 / larger / 2^40 / -1; empty and 70 kB bodies) delivered to the real client roles; same oracle as client")
+	ev.Enum(r, "client-http", true, func(yield func(caseDesc) bool) {
+		i := 0
+		for _, c := range []int{0, 3} {
+			for _, p := range clientPositions {
+				for _, flt := range httpFaults {
+					i++
+					if !r.Mine(i) {
+						continue
+					}
+					if !yield(caseDesc{Side: "client", Pos: p, Cfg: c, In: input{Kind: "http", Hex: flt}}) {
+						return
 					}
 				}
 			}
